@@ -218,8 +218,8 @@ func runC17(c *Ctx) {
 			c.ob("C17-R1", fnKey(fn)+"#"+short(callName(cl))+"-"+itoa(n), cl.Pos(), ok2, "the path opened here is not confined to the root: "+why+" — a symbolic link (or joined component) can point outside the root and its content is served")
 		})
 	}
-	if nSink < 3 {
-		c.undecided("C17-R1: %d file sinks found in response-writing functions of pkg/web, floor 3", nSink)
+	if nSink < 2 {
+		c.undecided("C17-R1: %d file sinks found in response-writing functions of pkg/web, floor 2", nSink)
 	}
 	for _, p := range k.rootAdv {
 		c.info("C17-R1", webPkg+"#isSubPath-root-not-symlink-resolved", token.NoPos, "isSubPath called with a root that is only Abs-ed, not EvalSymlinks-ed, at "+p+" (availability: a symlinked root rejects everything; not an escape)")
